@@ -130,7 +130,10 @@ DrawOp(r, S) ==
       k0 == Pick(Mix, d[2])
       \* switching the solver inside an open context is a known finding (F38) that shadows the rest of the
       \* walk: keep it rare
-      k == IF k0 = "SwitchSolver" /\ IsModel(S.m[s]) /\ Len(S.ctx[s]) > 0 /\ d[23] % 5 # 0 THEN "SetDirection" ELSE k0
+      k1 == IF k0 = "SwitchSolver" /\ IsModel(S.m[s]) /\ Len(S.ctx[s]) > 0 /\ d[23] % 5 # 0 THEN "SetDirection" ELSE k0
+      \* operations that are not documented as reversible (renaming, groups, annotations) are exercised outside
+      \* contexts only: C03 quantifies over documented-as-reversible changes
+      k == IF k1 \in NotContextAware /\ IsModel(S.m[s]) /\ Len(S.ctx[s]) > 0 THEN "SetObjCoef" ELSE k1
       rx == PickPresent(RxSeq, C.rxns, d[3])
       rx2 == PickPresent(RxSeq, C.rxns, d[4])
       mt == PickPresent(MetSeq, C.mets, d[5])
